@@ -30,6 +30,7 @@ type Exec struct {
 	rg         *RG
 	readLog    map[string]bool
 	entryMeasure Term
+	heapElemType map[string]types.Type
 }
 
 type exitRec struct {
@@ -1097,7 +1098,7 @@ func (ex *Exec) zeroArray(st *State, ref Term, et types.Type) {
 			}
 			name := ex.fieldHeapName(f)
 			h := ex.heap(st, name, arrSort(SRef, fs))
-			nh := ex.cx.fresh("hz", h.Sort)
+			nh := ex.freshHeap("hz_", name, h.Sort)
 			is := ex.cx.intS()
 			// nh agrees with h except at elem(ref, *), where it is zero
 			ex.cx.assume(Term{fmt.Sprintf("(forall ((i!z %s)) (! (= (select %s (elem %s i!z)) %s) :pattern ((select %s (elem %s i!z)))))", is, nh.S, ref.S, ex.zeroTerm(fs).S, nh.S, ref.S), SBool})
